@@ -497,6 +497,8 @@ type applyTarget struct {
 	d *cT2 `inject:""` // unexported: cannot be set, must be skipped
 	E cI2  `inject:""`
 	F cN   `inject:""`
+	G cT3  // untagged struct-typed field: must stay untouched as well
+	H cI1  // untagged interface-typed field
 }
 
 func buildScopes(c *injCase, chans map[string]string) ([]inject.Injector, scopeTable) {
@@ -583,7 +585,7 @@ func judgeInj(w *core.W, c *injCase) {
 			w.Violate("apply", c, fmt.Sprintf("all tagged fields are resolvable, Apply returned %v", err))
 			return
 		}
-		if tgt.C != "untouched" || tgt.d != nil {
+		if tgt.C != "untouched" || tgt.d != nil || tgt.G != (cT3{}) || tgt.H != nil {
 			w.Violate("apply", c, "an untagged or unexported field was modified")
 			return
 		}
